@@ -269,4 +269,54 @@ example :
   · exact .earlier (o1 := [⟨8, "a"⟩]) (e1 := [identityEdge ⟨20, "a"⟩ ⟨7, "a"⟩]) (p1 := []) (n1 := 30) (by rfl)
       (.bag (by simp) (by decide +kernel))
 
+/-- **Node level: inherited inverse names pass through unchanged.**  When a layer inherits a name backwards and has no inverse field
+of that name, the node `Context.reverse` hands on under that name (`Passes`: the fresh clone `c` of the incoming node `n`) computes, in
+the decorated graph, exactly what `n` computes - the value is returned un-inverted BY THAT LAYER only because the layer declares the
+inheritance; `node_no_inverse_path_rejected` shows that without it the name is dropped. -/
+theorem node_loopback_pass_through (b fb r : Bag) (h : b.loopbackWith fb = .ok r) :
+    ∃ state, connectBags b fb = .ok state ∧
+      ∀ n c, Passes state.ctx state.outputs state.next n c → c ∉ r.inputs → ∀ t, BDen r c t ↔ BDen r n t := by
+  obtain ⟨state, outs, es, opt, nx, hst, hrev, _, he, _⟩ := loopback_shape b fb r h
+  refine ⟨state, hst, fun n c hp hc t => ?_⟩
+  have hmem : identityEdge n c ∈ r.edges := by
+    rw [he]; exact List.mem_append.2 (Or.inr (reverse_passes _ _ _ _ _ _ _ hrev n c hp))
+  exact den_identity_edge (loopback_single b fb r h) hmem hc t
+
+/-- a layer that inherits the name and does not invert it hands the incoming node on (non-vacuity of `Passes`) -/
+theorem node_layer_passes (bi bo : List BNode) (inh : NameSet) (outs : List BNode) (next : Nat) (n : BNode) (hn : n ∈ outs)
+    (hi : inh.mem n.name = true) (hb : (names bo).contains n.name = false) :
+    ∃ c, c.name = n.name ∧ Passes (.bag bi bo inh) outs next n c :=
+  bag_pass_exists bi bo inh outs next n hn hi hb
+
+/-- **Node level: the last layer's inverse sees what `f` returned.**  The usual shape `layer._decorate(...)(f)`: the context of `f`
+hands its output `o` on as the clone `c` (`Passes`), the layer's backward input `n` of the same name is stitched to `c` (`Feeds`): in
+the decorated graph `n` computes exactly what `o` computes in `pipeline >> f`. -/
+theorem node_decorated_input_is_f_output (b fb r : Bag) (h : b.loopbackWith fb = .ok r) :
+    ∃ state es, connectBags b fb = .ok state ∧ r.edges = state.edges ++ es ∧
+      ∀ n c o, Feeds state.ctx state.outputs state.next n c → Passes state.ctx state.outputs state.next o c →
+        n ∉ r.inputs → c ∉ r.inputs → ¬ Down r.edges (es.map (·.out)) o → ∀ t, BDen r n t ↔ BDen state o t := by
+  obtain ⟨state, outs, es, opt, nx, hst, hrev, _, he, hi⟩ := loopback_shape b fb r h
+  refine ⟨state, es, hst, he, fun n c o hf hp hn hc hd t => ?_⟩
+  have hs := loopback_single b fb r h
+  have h1 : identityEdge c n ∈ r.edges := by
+    rw [he]; exact List.mem_append.2 (Or.inr (reverse_feeds _ _ _ _ _ _ _ hrev n c hf))
+  have h2 : identityEdge o c ∈ r.edges := by
+    rw [he]; exact List.mem_append.2 (Or.inr (reverse_passes _ _ _ _ _ _ _ hrev o c hp))
+  rw [den_identity_edge hs h1 hn t, den_identity_edge hs h2 hc t]
+  exact den_extension hi he hd t
+
+/-- non-vacuity (a test): one layer inverting `a`, decorated around an `f` returning `a` (node 20): the clone 30 of `f`'s output is
+handed on by the context of `f` and feeds the layer's backward input 7 -/
+example :
+    Passes (.chain (.bag [⟨7, "a"⟩] [⟨8, "a"⟩] (.fin [])) (.bag [] [] (.fin ["a"]))) [⟨20, "a"⟩] 30 ⟨20, "a"⟩ ⟨30, "a"⟩ ∧
+    Feeds (.chain (.bag [⟨7, "a"⟩] [⟨8, "a"⟩] (.fin [])) (.bag [] [] (.fin ["a"]))) [⟨20, "a"⟩] 30 ⟨7, "a"⟩ ⟨30, "a"⟩ := by
+  constructor
+  · refine .later (.bag ?_ ?_)
+    · decide +kernel
+    · have : (cloneEdges false (List.filter (fun m => (NameSet.fin ["a"]).mem m.name && !(names []).contains m.name)
+          [(⟨20, "a"⟩ : BNode)]) 30).2.1 = [identityEdge ⟨20, "a"⟩ ⟨30, "a"⟩] := by rfl
+      rw [this]; exact List.mem_singleton.2 rfl
+  · exact .earlier (o1 := [⟨30, "a"⟩]) (e1 := [identityEdge ⟨20, "a"⟩ ⟨30, "a"⟩]) (p1 := [⟨30, "a"⟩]) (n1 := 31) (by rfl)
+      (.bag (by simp) (by decide +kernel))
+
 end CM.C10
